@@ -171,6 +171,11 @@ func (s *Spec[T]) equal(t T, impl, model Sexp) bool {
 	if s.Equal != nil {
 		return s.Equal(t, impl, model)
 	}
+	// an error is an error: which wrapper text or class the implementation chose is not part of any
+	// property (a refactoring may reword messages), so two error replies agree
+	if impl.IsL && model.IsL && impl.Head() == "err" && model.Head() == "err" {
+		return true
+	}
 	return impl.String() == model.String()
 }
 
